@@ -26,6 +26,11 @@ PROFILE = P.profile(levels_w={1: 0, 2: 5, 3: 5}, level_limit=[1, 3], p_no_level_
 
 def gen(seed, tier):
     pl = P.gen_plan(seed, PROFILE, PROP)
+    import random as _r
+
+    from .c10 import local_method_scenario
+
+    local_method_scenario(pl, _r.Random(seed ^ 0xC10), seed)
     sp = pl.get("sprout")
     if sp and "generator" in sp:
         # make several candidates per parent likely: NBC generator, DemeLimit(k>1) or none
